@@ -192,6 +192,10 @@ type c11Chunk struct {
 	HasDict              bool
 	Pages                []c11Page
 	HasMinMax, HasDep    bool
+	// layout numbers (the byte splice mirror, Splice.lean)
+	DictOff, DataOff     int64
+	TotalC, TotalU       int64
+	Locs                 [][3]int64 // offset, compressed size, first row index
 }
 
 func (p c11Page) trivial() bool { return !p.NullPage && p.NullCount == 0 && p.MinLen == 0 && p.MaxLen == 0 }
@@ -222,6 +226,7 @@ func c11FileInfo(file []byte, f *parquet.File) (out [][]c11Chunk, err error) {
 			c := c11Chunk{Type: int(m.Type), Codec: int(m.Codec), CIOff: cc.ColumnIndexOffset, OIOff: cc.OffsetIndexOffset,
 				BloomOff: m.BloomFilterOffset, BloomLen: m.BloomFilterLength, NumValues: m.NumValues, NullCount: m.Statistics.NullCount,
 				Rows: rg.NumRows, HasDict: m.DictionaryPageOffset != 0,
+				DictOff: m.DictionaryPageOffset, DataOff: m.DataPageOffset, TotalC: m.TotalCompressedSize, TotalU: m.TotalUncompressedSize,
 				// an empty byte string bound is present (non-nil, length 0); absent bounds decode as nil
 				HasMinMax: m.Statistics.MinValue != nil || m.Statistics.MaxValue != nil,
 				HasDep:    m.Statistics.Min != nil || m.Statistics.Max != nil}
@@ -241,6 +246,7 @@ func c11FileInfo(file []byte, f *parquet.File) (out [][]c11Chunk, err error) {
 			if k < len(ois) && k < len(cis) {
 				cix := &cis[k]
 				for pi, loc := range ois[k].PageLocations {
+					c.Locs = append(c.Locs, [3]int64{loc.Offset, int64(loc.CompressedPageSize), loc.FirstRowIndex})
 					var h format.PageHeader
 					p := thrift.CompactProtocol{}
 					end := loc.Offset + int64(loc.CompressedPageSize)
@@ -279,6 +285,26 @@ func c11FileInfo(file []byte, f *parquet.File) (out [][]c11Chunk, err error) {
 		out = append(out, row)
 	}
 	return out, nil
+}
+
+// layout numbers of a chunk in the text of the `copy.splice` op; withBloom: request form
+func (c *c11Chunk) layoutText(bloomLen int64, request bool) string {
+	d := "n"
+	if c.DictOff != 0 {
+		d = fmt.Sprint(c.DictOff)
+	}
+	var ls []string
+	for _, l := range c.Locs {
+		ls = append(ls, fmt.Sprintf("%d.%d.%d", l[0], l[1], l[2]))
+	}
+	locs := "-"
+	if len(ls) > 0 {
+		locs = strings.Join(ls, "+")
+	}
+	if request {
+		return fmt.Sprintf("%s,%d,%d,%d,%d,%d,%d,%s", d, c.DataOff, c.TotalC, c.TotalU, c.NumValues, c.Rows, bloomLen, locs)
+	}
+	return fmt.Sprintf("%s,%d,%d,%d,%d,%d,%s", d, c.DataOff, c.TotalC, c.TotalU, c.NumValues, c.Rows, locs)
 }
 
 // text of a file chunk for the model (Driver/Ops/C11.lean)
@@ -797,6 +823,84 @@ func aspectClass(a string) string {
 	return a
 }
 
+func c11AllVerbatim(paths []string) bool {
+	for _, p := range paths {
+		if p != "verbatim" {
+			return false
+		}
+	}
+	return len(paths) > 0
+}
+
+// c11SpliceL2: every source row group was spliced verbatim; the numbers of the output's metadata
+// (dictionary / data page offsets, page locations, sizes, counts, bloom filter sections) must be
+// the Lean splice (Splice.lean: loadCopied, writeCopied, rowGroupMetasMixed, placeBlooms) applied
+// to the source's metadata at the output row group's start offset.
+func c11SpliceL2(ctx *core.Ctx, env *c11Env, d interface {
+	AskMany([]string) ([]string, error)
+}, c *c11Case, outInfo [][]c11Chunk, detail func(map[string]any) map[string]any) {
+	paths := c.schema.Columns()
+	var reqs, wants []string
+	gi := 0
+	for _, s := range c.srcs {
+		if s.rg.NumRows() == 0 {
+			continue // nothing is written for an empty row group
+		}
+		if gi >= len(outInfo) {
+			ctx.Fail("L2", "splice-row-group-count", "fewer output row groups than spliced source row groups", detail(nil))
+			return
+		}
+		og := outInfo[gi]
+		gi++
+		chunks := s.rg.ColumnChunks()
+		if len(chunks) != len(og) || len(og) == 0 {
+			return
+		}
+		start := og[0].DataOff
+		if og[0].DictOff != 0 {
+			start = og[0].DictOff
+		}
+		var req, want, blooms []string
+		for ci, cc := range chunks {
+			fc, ok := cc.(*parquet.FileColumnChunk)
+			if !ok || env.chunkOf[fc] == nil {
+				return
+			}
+			src := env.chunkOf[fc]
+			bl := int64(0)
+			if ci < len(paths) {
+				if _, has := c.b.Bloom[strings.Join(paths[ci], ".")]; has {
+					bl = int64(src.BloomLen)
+				}
+			}
+			req = append(req, src.layoutText(bl, true))
+			want = append(want, og[ci].layoutText(0, false))
+			if og[ci].BloomOff != 0 {
+				blooms = append(blooms, fmt.Sprintf("%d.%d", og[ci].BloomOff, og[ci].BloomLen))
+			} else {
+				blooms = append(blooms, "n")
+			}
+		}
+		reqs = append(reqs, fmt.Sprintf("copy.splice %d %s", start, strings.Join(req, ";")))
+		wants = append(wants, "ok "+strings.Join(want, ";")+" "+strings.Join(blooms, ","))
+	}
+	if len(reqs) == 0 {
+		return
+	}
+	ans, err := d.AskMany(reqs)
+	if err != nil {
+		ctx.Fail("L2", "driver-error", err.Error(), nil)
+		return
+	}
+	for i, a := range ans {
+		ctx.Hist("splice-mirror-compared", "row-group")
+		if a != wants[i] {
+			ctx.Fail("L2", "splice-metadata-vs-mirror", "the metadata of a spliced row group differs from the Lean splice of the source's metadata",
+				detail(map[string]any{"request": reqs[i], "model": a, "library": wants[i]}))
+		}
+	}
+}
+
 // c11Split: the row groups n buffered rows are flushed as
 func c11Split(n, maxRows int64) (out []int64) {
 	for maxRows > 0 && n > maxRows {
@@ -1165,6 +1269,10 @@ func c11Run(ctx *core.Ctx, env *c11Env, d interface {
 		if wantCopy != out.copyN || wantReenc != out.reencN {
 			ctx.Fail("L2", "path-counters-vs-mirror "+sig, fmt.Sprintf("the library took copy=%d reencode=%d, the Lean mirror predicts copy=%d reencode=%d (paths %v)", out.copyN, out.reencN, wantCopy, wantReenc, paths),
 				detail(map[string]any{"requests": reqs, "answers": ans}))
+		} else if c11AllVerbatim(paths) && c.prefix == 0 && c.kind == "file" {
+			c11SpliceL2(ctx, env, d, c, outInfo, detail)
+		}
+		if wantCopy != out.copyN || wantReenc != out.reencN {
 		} else if allFast && fmt.Sprint(append(c11Split(int64(c.prefix), c.b.MaxRows), sizes...)) != fmt.Sprint(rowGroupSizes(outInfo)) {
 			sizes = append(c11Split(int64(c.prefix), c.b.MaxRows), sizes...)
 			ctx.Fail("L2", "row-groups-vs-mirror "+sig, fmt.Sprintf("output row groups %v, the mirror's plan gives %v", rowGroupSizes(outInfo), sizes),
